@@ -510,6 +510,11 @@ func callSSA(i *interpreter, caller *frame, callpos token.Pos, fn *ssa.Function,
 	if caller != nil && depth(caller) > 400 {
 		panic(unwindExceeded{"call depth exceeded at " + fn.String()})
 	}
+	if fn.Name() == "init" && fn.Synthetic != "" && fn.Pkg != nil && fn.Signature.Recv() == nil {
+		if !i.prog.initAllowed(fn.Pkg.Pkg.Path()) {
+			return nil
+		}
+	}
 	if ext := i.prog.lookupExternal(fn); ext != nil {
 		if i.trace {
 			fmt.Fprintf(os.Stderr, "%*sext %s\n", depth(caller), "", fn)
@@ -518,7 +523,11 @@ func callSSA(i *interpreter, caller *frame, callpos token.Pos, fn *ssa.Function,
 		return ext(fr, args)
 	}
 	if fn.Blocks == nil {
-		panic(engineError{"no code for function: " + fn.String() + " (called from " + posOf(caller) + ")"})
+		st := ""
+		if caller != nil {
+			st = caller.stack()
+		}
+		panic(engineError{"no code for function: " + fn.String() + st})
 	}
 	if fn.TypeParams().Len() > 0 && len(fn.TypeArgs()) == 0 {
 		panic(engineError{"uninstantiated generic " + fn.String()})
